@@ -10,6 +10,13 @@ CLAIMED = {
   "note": "Trusted: Lean kernel; axioms propext/Quot.sound/Classical.choice only; sequentially consistent single-location atomics; no usize wrap; constant limit; reset_max atomic in the model; the correspondence is differential (bounded-exhaustive + random), real thread interleavings are not controlled.",
   "design_ref": "DESIGN.md §7 C19",
  },
+
+ "C01": {
+  "technique": "Lean 4 proof by structural induction over arithmetic trees (eval_exact) + differential correspondence of lexer/parser/evaluator model with rink_core::eval and an independent exact oracle",
+  "text": "Rink.Spec.eval_exact (lean/Rink/Props/C01.lean): for every arithmetic tree over + - * / | juxtaposition, integer ^, mod, << >>, and/or/xor and unary signs, of any depth and operand size, the model evaluator returns exactly the rational of unbounded-precision arithmetic, dimensionless, an error exactly when the result is undefined, never a float, never a panic. The model of lexer, parser and evaluator is tied to the code by evaluating generated query strings (all notations, separators, spacing, redundant parentheses; bounded-exhaustive over a boundary alphabet plus random trees with operands of hundreds of digits) through rink_core's own parse_query/eval_query and comparing the exact numerator/denominator with the Lean model and with an independent evaluation of the generating tree.",
+  "note": "Trusted: Lean kernel; num-bigint/num-rational exactness; the lexing of literals and the precedence ladder are covered by the correspondence run and not yet by theorems (lex_literal / parse_renders are future work); results beyond 2^24 bits are classed huge and skipped.",
+  "design_ref": "DESIGN.md §7 C01",
+ },
 }
 
 NOT_YET = {
